@@ -1,6 +1,7 @@
 //! C18 — minimiser+k-mers iterator agrees with the plain one and conserves all w-mers.
 use super::c09::{small_cases, Case};
 use crate::engine::{Ctx, Leg, Tier, Verdict};
+use crate::gen;
 use crate::model;
 use kmer::kmer_minimisers::KmerMinimiserGenerator;
 use kmer::minimiser::MinimiserGenerator;
@@ -58,7 +59,26 @@ impl Leg for Random {
     }
 }
 
+/// first calls of a fresh process made by several threads at once
+pub struct Cold;
+impl Leg for Cold {
+    type Case = super::coldstart::Case;
+    const NAME: &'static str = "cold-start-threads";
+    fn strategy(_tier: Tier) -> BoxedStrategy<Self::Case> {
+        use super::coldstart::Op;
+        let op = gen::wm_strategy(31, 31).prop_flat_map(|(w, m)| super::coldstart::small_seq(w).prop_map(move |seq| Op::KmerMinimiser { seq, w, m })).boxed();
+        super::coldstart::case_strategy(op)
+    }
+    fn check(c: &Self::Case) -> Verdict {
+        super::coldstart::check(c, "cold-start-wrong-result")
+    }
+}
+
 pub fn run(ctx: &mut Ctx) {
+    let nc = ctx.share(ctx.tier.pick(400, 8_000));
+    ctx.run_leg::<Cold>(nc, false, 40);
+    super::coldstart::infra_inconclusive(ctx);
+
     let maxlen = ctx.tier.pick(8, 11);
     let items = small_cases(maxlen, ctx.shard, ctx.nshards, 31);
     ctx.run_enum(
@@ -75,6 +95,7 @@ pub fn run(ctx: &mut Ctx) {
 pub fn replay(leg: &str, case: &serde_json::Value) -> Option<Result<Verdict, String>> {
     match leg {
         "exhaustive" | "random" => Some(crate::engine::replay_leg::<Random>(case)),
+        "cold-start-threads" => Some(crate::engine::replay_leg::<Cold>(case)),
         _ => None,
     }
 }
